@@ -1,2 +1,62 @@
-//! Harnesses for property C21 (see /verif/properties.jsonl).
+//! Harnesses for property C21 (see /verif/properties.jsonl): statistics.
+//!
+//! Every C15/C16 harness asserts `check_stats!` (exactly one registration whose kind matches the
+//! decoded response). `c21_once` adds what those cannot see with a request-sized buffer: an
+//! arbitrary send-buffer size (0..=64 bytes, independent of the request), so that the
+//! serialisation-failure path after a positive policy decision is exercised too.
+use crate::common::*;
 use crate::stubs;
+use ntp_proto::verif::{server as sh, time_types as tt};
+use ntp_proto::*;
+use std::net::{IpAddr, Ipv4Addr, Ipv6Addr};
+use std::time::Duration;
+
+srv_harness! {
+    #[kani::unwind(4)]
+    fn c21_once() {
+        stubs::symbolic_clock();
+        let cfg = any_cfg(any_nets(), any_nets(), 1);
+        let info = any_server_info();
+        let now: u64 = kani::any();
+        let recv: u64 = kani::any();
+        let fam: u8 = kani::any();
+        kani::assume(fam <= 2);
+        let cb: [u8; 16] = kani::any();
+        let msg: [u8; 52] = kani::any();
+        let len: usize = kani::any();
+        kani::assume(len <= 52);
+        let blen: usize = kani::any();
+        kani::assume(blen <= 64);
+        let seeded: bool = kani::any();
+        let client = client_addr(fam, cb);
+        let mut server = build_server(&cfg, SymClock { now: tt::ts_from_raw(now) }, info, zero_keyset());
+        if seeded {
+            sh::server_cache_set_slot(&mut server, 0, Some((client, stubs::make_instant(0, 0))));
+        }
+        let mut stats = RecStats::new();
+        let mut buf = [0u8; 64];
+        let act = server.handle(client, tt::ts_from_raw(recv), &msg[..len], &mut buf[..blen], &mut stats);
+        let out = outcome(&act);
+        check_stats!(stats, out);
+        assert!(!stats.nts, "C21: the NTS flag is never set for a plain request");
+        let vn = if len > 0 { (msg[0] >> 3) & 7 } else { 0 };
+        assert!(stats.version == vn, "C21: recorded version is the datagram's version field");
+        if out.kind.is_some() {
+            assert!(out.resp_len <= blen, "response lies inside the caller's buffer");
+        }
+        if blen < 48 {
+            assert!(out.kind.is_none(), "no response fits a buffer shorter than a header");
+        }
+        // the recorded reason distinguishes "ignored on purpose" from "could not answer"
+        if stats.reason == ServerReason::InternalError {
+            assert!(out.kind.is_none() && blen < 48 && len >= 48, "internal error is recorded only when the answer did not fit");
+        }
+        kani::cover!(stats.reason == ServerReason::InternalError, "serialisation failure recorded once, as Ignore");
+        kani::cover!(out.kind == Some(Kind::Time) && blen == 48, "time answer into a minimal buffer");
+        kani::cover!(out.kind == Some(Kind::DenyKiss) && blen == 64, "deny kiss into a larger buffer");
+        kani::cover!(out.kind.is_none() && stats.reason == ServerReason::ParseError, "parse error recorded");
+        kani::cover!(out.kind.is_none() && stats.reason == ServerReason::RateLimit, "rate limit recorded");
+        kani::cover!(out.kind.is_none() && stats.reason == ServerReason::Policy && len == 0, "empty datagram recorded");
+        std::mem::forget(server);
+    }
+}
